@@ -579,3 +579,32 @@ package kv
 //@ func DB.ReadCommitOffset
 //@ trusted
 //@ modifies nothing
+
+// ---------------------------------------------------------------- list and range scan (C11, C12)
+
+//@ func KV.KeyRangeScan(recv, lowerBound, upperBound) (it, err)
+//@ trusted
+//@ modifies nothing
+//@ ensures err == nil ==> it != nil
+
+//@ func KV.RangeScan(recv, lowerBound, upperBound) (it, err)
+//@ trusted
+//@ modifies nothing
+//@ ensures err == nil ==> it != nil
+
+// A list or range scan of the database is the scan of the storage engine over exactly
+// the bounds of the request (an empty end bound is an open end: nothing is cut off).
+//
+//@ func db.List(d, request) (it, err)
+//@ property C11 C12
+//@ requires request != nil && d.kv != nil && d.listCounter != nil && d.listLatencyHisto != nil
+//@ assert at call KeyRangeScan#0: lowerBound == request.StartInclusive && upperBound == request.EndExclusive
+//@ ensures err == nil ==> it != nil
+//@ modifies *
+
+//@ func db.RangeScan(d, request) (it, err)
+//@ property C11 C12
+//@ requires request != nil && d.kv != nil && d.rangeScanCounter != nil && d.listLatencyHisto != nil
+//@ assert at call RangeScan#0: lowerBound == request.StartInclusive && upperBound == request.EndExclusive
+//@ ensures err == nil ==> it != nil
+//@ modifies *
